@@ -139,7 +139,15 @@ func main() {
 			must(copyDir(filepath.Join(*tools, "shims", s), filepath.Join(zz, s)))
 		}
 	}
-	must(copyDir(filepath.Join(*tools, "harness"), filepath.Join(zz, "harness")))
+	if *noshim {
+		// the -race observer of C14: the repository's own compiled code, no shims
+		must(copyDir(filepath.Join(*tools, "raceharness"), filepath.Join(zz, "harness")))
+		for _, f := range []string{"api.go", "events.go", "access_off.go", "keytypes.go"} {
+			must(copyFile(filepath.Join(*tools, "harness", f), filepath.Join(zz, "harness", f)))
+		}
+	} else {
+		must(copyDir(filepath.Join(*tools, "harness"), filepath.Join(zz, "harness")))
+	}
 	if *pins && !*noshim {
 		must(copyFile(filepath.Join(*tools, "access", "xsync_access.go.txt"), filepath.Join(*dst, "internal", "xsync", "zz_verif_access.go")))
 		must(copyFile(filepath.Join(*tools, "access", "cache_access.go.txt"), filepath.Join(*dst, "zz_verif_access.go")))
